@@ -16,8 +16,13 @@ FaultAct(ev) ==
                             ELSE Walk(ev.d, ev.prune, Range(ev.obs.pool), <<>>)   \* a re-admission write failed: that tx is dropped
     [] ev.op = "submit"  -> OpFault("submit", "other")
     [] OTHER             -> OpFault(ev.op, "fail")
+(* An operation that names a block neither the real node nor the specification has (it arises when the real miner packed
+   other transactions than the generator assumed, so that a later generated block was refused by both and the block
+   numbers of the generated behaviour run ahead): nothing happens. *)
+NoBlk(ev) == \/ (Has(ev, "p") /\ ev.p \notin 1..n) \/ (Has(ev, "b") /\ ev.b \notin 1..n) \/ (Has(ev, "d") /\ ev.d \notin 1..n)
 Act(ev) ==
-  CASE Has(ev, "fault")  -> FaultAct(ev)
+  CASE ev.op # "reset" /\ NoBlk(ev) -> (UNCHANGED <<blk, n, ltip, ptr, utxo, zu, zd, total, irr, pool, dev, applied, pruned>> /\ Log([op |-> ev.op, res |-> "noblock"]))
+    [] Has(ev, "fault")  -> FaultAct(ev)
     [] ev.op = "reset"   -> Reset
     [] ev.op = "submit"  -> SubmitAny(ev.t, ev.res)
     [] ev.op = "mkblock" -> MkAnyBlock(ev.p, ev.txs)
@@ -35,7 +40,7 @@ Act(ev) ==
    post-state and is judged one step later, when that state is the current one (large expressions are not
    evaluated under a prime: TLC does not cache lazily evaluated values there). *)
 WalkCutsOK(ev) ==
-  ~(Has(ev, "cuts") /\ ev.op = "walk") \/
+  NoBlk(ev) \/ ~(Has(ev, "cuts") /\ ev.op = "walk") \/
   \E w \in {WalkChoice(ev.d, ev.prune, Range(ev.obs.pool), IF Has(ev, "readmit") THEN ev.readmit ELSE <<>>)} :
     \A i \in DOMAIN ev.cuts :
       \E c \in {ev.cuts[i]} :
@@ -55,7 +60,7 @@ PrevCutsOK ==
    pre-state: the block is already part of blk) *)
 MinedOrderOK(ev) == ~(ev.op = "mkblock" /\ Has(ev, "mined")) \/ (KF_PoolOrderAntiDep /\ ~PoolOrderOK(ev.txs)) \/ PackedOK(ev.txs)
 ReplicaOK(ev) ==
-  ~(ev.op = "pfm" /\ Has(ev, "replica")) \/
+  NoBlk(ev) \/ ~(ev.op = "pfm" /\ Has(ev, "replica")) \/
   \E e \in {ReplicaObs(ev.b)} :
      \/ (KF_PoolOrderAntiDep /\ ~PoolOrderOK(blk[ev.b].txs))
      \/ (ev.replica.res = e.res /\ ev.replica.blockvalid /\ Norm(ev.replica.obs) = ObsOf(e.rec, ev.b))
